@@ -789,7 +789,13 @@ fn main() {
                         r_ref.counters.add("violations_depending_on_unowned_randomness", 1);
                         verdict = Err(format!("{what} (violates in {violating_runs} of {runs} runs of this choice sequence: the outcome depends on randomness inside the driver, e.g. hash order; replay may need several attempts)"));
                     }
-                    Audit::Diverged(d) => divergences.lock().unwrap().push(format!("{d}; case {:?} choices {:?}", case, choices)),
+                    Audit::Diverged(d) => {
+                        divergences.lock().unwrap().push(format!("{d}; case {:?} choices {:?}", case, choices));
+                        // a violation that never shows again is not reported as one (it counts as a divergence only)
+                        if verdict.is_err() {
+                            verdict = Ok(());
+                        }
+                    }
                 }
                 r_ref.traces_validated.fetch_add(1, Ordering::Relaxed);
             }
@@ -812,8 +818,17 @@ fn main() {
         }
     });
     let div = divergences.into_inner().unwrap();
+    // Verdict policy: replays that disagree (two passing runs with different traces, or a violation that never shows again)
+    // mean the outcome depends on randomness the harness does not own (tokio's select! start branch, hash order). If at the
+    // same time a violation WAS reproduced, that is a real execution of the real code: report it (exit 1) and mention the
+    // RNG dependence. Without any reproduced violation the divergences are a machinery error (exit 2), never a verdict.
     if !div.is_empty() {
-        vcore::machinery_error(&format!("determinism audit failed ({} divergences), first: {}", div.len(), div[0]));
+        r.counters.add("replay_divergences(outcome depends on unowned randomness)", div.len() as u64);
+        r.note("replay_divergence_samples", json!(div.iter().take(3).collect::<Vec<_>>()));
+        if r.violation_count() == 0 {
+            vcore::machinery_error(&format!("determinism audit failed ({} divergences) and no violation was reproduced, first: {}", div.len(), div[0]));
+        }
+        println!("NOTE: {} replayed executions diverged (the schedule depends on randomness inside the driver, e.g. tokio's select! start branch); the violations below were each reproduced at least once", div.len());
     }
     let sigs = signatures.into_inner().unwrap();
     r.eval(executions.load(Ordering::Relaxed));
